@@ -239,4 +239,102 @@ def twoSubscribers (form : AppendForm) (arr : List τ) (k : Nat) (provA provB : 
   let (arr₂, _) := ctorAppend form arr₁ k provB
   s₁.read arr₂
 
+/-! ### Dynamically typed values in Arguments and Results
+
+`Arguments`/`Results` are `[]interface{}`: every element carries a DYNAMIC type
+(or is the untyped `nil`). Generated code consumes them with type assertions
+(`ret[0].(*T)`), so the dynamic type is part of "what the other side observes". -/
+
+/-- Go kinds that matter here: pointers, the other nil-able kinds, everything else. -/
+inductive VKind where
+  | ptr | slice | map | prim
+  deriving DecidableEq, Repr
+
+/-- A value stored in an `interface{}`: the untyped nil, or a dynamic type with its
+nil-ness and (an opaque rendering of) its contents. A nil pointer / slice / map in an
+interface is `val ty k true _` — NOT `untyped`. -/
+inductive DVal where
+  | untyped
+  | val (ty : String) (kind : VKind) (isNil : Bool) (payload : String)
+  deriving DecidableEq, Repr
+
+/-- A value as a Go function returns it, with its DECLARED type: a concrete type, or an
+interface type (`error`) holding nothing or some dynamic value. -/
+inductive SVal where
+  | concrete (ty : String) (kind : VKind) (isNil : Bool) (payload : String)
+  | iface (dyn : DVal)
+  deriving DecidableEq, Repr
+
+/-- `reflect.Value.Interface()` on a returned value: a concrete value keeps its type even
+when it is nil; an interface-typed value yields what it holds (nothing = untyped nil; a
+typed-nil `*Exc` returned as `error` stays a non-nil interface holding a nil `*Exc`). -/
+def SVal.toIface : SVal → DVal
+  | .concrete ty k n p => .val ty k n p
+  | .iface d => d
+
+/-- The conversion at the end of `newInvocationHandler`:
+`for i, ret := range returnValues { results[i] = ret.Interface() }`. -/
+def baseConvert (rets : List SVal) : List DVal := rets.map SVal.toIface
+
+/-- A variant that turns nil pointers (also inside an interface) into the untyped nil —
+NOT what the code does; `c16_nil_normalising_counterexample` shows what it breaks. -/
+def SVal.toIfaceNilNorm : SVal → DVal
+  | .concrete ty k n p => if k = .ptr ∧ n then .untyped else .val ty k n p
+  | .iface (.val ty k n p) => if k = .ptr ∧ n then .untyped else .val ty k n p
+  | .iface .untyped => .untyped
+
+def baseConvertNilNorm (rets : List SVal) : List DVal := rets.map SVal.toIfaceNilNorm
+
+/-- The proxied function of a Method whose Go function returns declared-type values. -/
+def baseFnDyn (h : α → List SVal) : α → List DVal := fun a => baseConvert (h a)
+
+/-- `x.(T)` succeeds iff the dynamic type is exactly `T` (it fails on the untyped nil). -/
+def DVal.hasType (ty : String) : DVal → Bool
+  | .untyped => false
+  | .val t _ _ _ => t == ty
+
+/-- How generated code ends up after consuming `Results`. -/
+inductive Consumed where
+  | success      -- processor: `ret[0].(R)` done, reply with the value / void success
+  | errPath      -- an error was found in the last position; `ret[0]` is not looked at
+  | returned     -- client: `(r, err)` handed to the caller
+  | panic
+  deriving DecidableEq, Repr
+
+/-- Generated processor function of a method returning `R`:
+```go
+if len(ret) != 2 { panic(…) }
+if ret[1] != nil { err = ret[1].(error) }
+if err != nil { … } else { var retval R = ret[0].(R) … }
+``` -/
+def consumeProcessor (R : String) (isErr : String → Bool) : List DVal → Consumed
+  | [r0, e] =>
+    match e with
+    | .untyped => if r0.hasType R then .success else .panic
+    | .val t _ _ _ => if isErr t then .errPath else .panic
+  | _ => .panic
+
+/-- Generated client method: `if ret[0] != nil { r = ret[0].(R) }; if ret[1] != nil { err = ret[1].(error) }`. -/
+def consumeClient (R : String) (isErr : String → Bool) : List DVal → Consumed
+  | [r0, e] =>
+    if r0 ≠ .untyped ∧ !r0.hasType R then .panic
+    else match e with
+      | .untyped => .returned
+      | .val t _ _ _ => if isErr t then .returned else .panic
+  | _ => .panic
+
+/-- Void methods, publishers, subscriber callbacks: `if ret[0] != nil { err = ret[0].(error) }`. -/
+def consumeVoid (isErr : String → Bool) : List DVal → Consumed
+  | [e] =>
+    match e with
+    | .untyped => .success
+    | .val t _ _ _ => if isErr t then .errPath else .panic
+  | _ => .panic
+
+/-- `Results` a function of declared signature `(R, error)` can produce, after boxing:
+position 0 has dynamic type `R` (nil or not), the last holds nothing or an error. -/
+def WellTyped (R : String) (isErr : String → Bool) (ret : List DVal) : Prop :=
+  ∃ r0 e, ret = [r0, e] ∧ r0.hasType R = true ∧
+    (e = .untyped ∨ ∃ t k n p, e = .val t k n p ∧ isErr t = true)
+
 end FV.Mw
